@@ -66,6 +66,8 @@ import Kodama.Lemmas.SpecSingle
 import Kodama.Lemmas.SpecDecide
 import Kodama.Lemmas.MstPrimExact
 import Kodama.Model.Linkage
+import Kodama.Lemmas.FieldInstances
+import Kodama.Props.C03
 namespace Kodama
 open Spec
 variable {α : Type} [Num α]
@@ -408,5 +410,171 @@ example : OrderLaws Nat ∧ NoNaN 4 exData' ∧ InfTop 4 exData' ∧
 end NonVacuityMst
 
 end Mst
+
+/-! ## `primitive_with` with `Method::Single`, and `primitive_with` vs `mst_with`
+## (appended section)
+
+Entry points: `primitive_with(.., Method::Single, ..)` (model `primitiveWith … .single`) and
+`mst_with` (model `mstWith`); both build modes, every prior state, every valid matrix
+`2 ≤ n < 2^31`, `2·len = n(n-1)`.
+
+Any number type `α` — hypotheses (all explicit):
+  `OrderLaws α`, `LtTrichotomy α` (incomparable ⇒ equal; FALSE for IEEE floats because of `±0` and
+  NaN — so these are exact-order statements; needed by `C03_primitive_single` for the symmetry of
+  `min`), `NoNaN n data`; for the comparison with `mst_with` additionally `InfTop n data` (the
+  sentinel `T::infinity()` is not NaN and not strictly below an entry — needed by `C04_mst`).
+
+* `C04_primitive`        `primitiveWith … .single` returns, and for EVERY level `h` the returned steps
+      of height `≤ h` join exactly the connected components of the threshold graph:
+      `SameCluster … h u v ↔ Reach n data h u v`.  (`C03_primitive_single` + `C04_of_greedy`.)
+* `C04_primitive_count`  the counting form (`C04_count`) and sortedness for the returned steps.
+* `C04_primitive_mst_same_cuts`  both calls return and at every level `h` their outputs induce the
+      SAME partition of the observations (`SameCluster` equivalent), whatever the build modes and
+      prior states.  (`C04_primitive` + `C04_mst_total` + `C04_mst`.)  This is what is provable of
+      "mst = primitive on single linkage" today: equality of the step LISTS on tie-free input needs
+      `GreedyValid` of `mstWith`'s output, which is not available
+      (`C06_primitive_mst_statement`).
+
+EXACT ARITHMETIC corollaries (`K` a linearly ordered field with `ExactLaws K`: `fieldNum K`,
+`fieldNumWith K sq`, or any exact run instance; IEEE floats are not a field, the float gap is
+measured by the oracles): `C04_primitive_exact` (no hypothesis left besides the shape),
+`C04_primitive_mst_same_cuts_exact` (hypothesis: every entry is `≤` the `infinity` sentinel of the
+instance — for `fieldNum K`, whose sentinel is `0`, that restricts the input to non-positive
+entries; use an exact instance with a large sentinel, as in the example).
+-/
+
+section Primitive
+
+theorem initNoNaN_single_of_noNaN {n : Nat} {data : Array α} (h : NoNaN n data) :
+    InitNoNaN .single n data := fun x y hx hy hxy => h x y hx hy hxy
+
+/-- **C04 for `primitive_with(Method::Single)`**: threshold theorem for the returned steps. -/
+theorem C04_primitive (L : OrderLaws α) (T : LtTrichotomy α) (chk : Bool) (st : State α)
+    (d : Dendrogram α) (data : Array α) (n : Nat) (h2 : 2 ≤ n) (hs : n < 2147483648)
+    (hl : 2 * data.size = n * (n - 1)) (hnan : NoNaN n data) :
+    ∃ st' d' M', primitiveWith chk .single st d data n = .ok (st', d', M') ∧
+      ∀ (h : α) (u v : Nat), u < n →
+        (SameCluster n d'.steps.toList h u v ↔ Reach n data h u v) := by
+  obtain ⟨st', d', M', hrun, hg⟩ := C03_primitive_single L T chk st d data n h2 hs hl
+    (initNoNaN_single_of_noNaN hnan)
+  exact ⟨st', d', M', hrun, fun h u v hu => C04_of_greedy L n data _ hnan hg h u v hu⟩
+
+/-- Sortedness and the counting form for the steps returned by `primitive_with(Method::Single)`. -/
+theorem C04_primitive_count (L : OrderLaws α) (T : LtTrichotomy α) (chk : Bool) (st : State α)
+    (d : Dendrogram α) (data : Array α) (n : Nat) (h2 : 2 ≤ n) (hs : n < 2147483648)
+    (hl : 2 * data.size = n * (n - 1)) (hnan : NoNaN n data) :
+    ∃ st' d' M', primitiveWith chk .single st d data n = .ok (st', d', M') ∧
+      d'.steps.toList.Pairwise (fun s t => Num.lt t.d s.d = false) ∧
+      ∀ h : α, ∃ reps : List Nat,
+        (d'.steps.toList.filter (fun st => !Num.lt h st.d)).length + reps.length = n ∧
+        (∀ r ∈ reps, r < n) ∧
+        reps.Pairwise (fun r r' => ¬ Reach n data h r r') ∧
+        (∀ u, u < n → ∃ r ∈ reps, Reach n data h u r) := by
+  obtain ⟨st', d', M', hrun, hg⟩ := C03_primitive_single L T chk st d data n h2 hs hl
+    (initNoNaN_single_of_noNaN hnan)
+  exact ⟨st', d', M', hrun, C04_heights_sorted L n data _ hnan hg,
+    fun h => C04_count L n data _ hnan hg h⟩
+
+/-- **`primitive_with(Single)` and `mst_with` cut identically at every level.** -/
+theorem C04_primitive_mst_same_cuts (L : OrderLaws α) (T : LtTrichotomy α) (chk₁ chk₂ : Bool)
+    (st₁ st₂ : State α) (d₁ d₂ : Dendrogram α) (data : Array α) (n : Nat) (h2 : 2 ≤ n)
+    (hs : n < 2147483648) (hl : 2 * data.size = n * (n - 1)) (hnan : NoNaN n data)
+    (hinf : InfTop n data) :
+    ∃ sp dp Mp sm dm Mm,
+      primitiveWith chk₁ .single st₁ d₁ data n = .ok (sp, dp, Mp) ∧
+      mstWith chk₂ st₂ d₂ data n = .ok (sm, dm, Mm) ∧
+      ∀ (h : α) (u v : Nat), u < n →
+        (SameCluster n dp.steps.toList h u v ↔ SameCluster n dm.steps.toList h u v) := by
+  obtain ⟨sp, dp, Mp, hp, hcp⟩ := C04_primitive L T chk₁ st₁ d₁ data n h2 hs hl hnan
+  obtain ⟨⟨sm, dm, Mm⟩, hm⟩ := C04_mst_total L chk₂ st₂ d₂ data n h2 hs hl hnan hinf
+  refine ⟨sp, dp, Mp, sm, dm, Mm, hp, hm, fun h u v hu => ?_⟩
+  exact (hcp h u v hu).trans
+    (C04_mst L chk₂ st₂ sm d₂ dm data n Mm h2 hs hl hnan hinf hm h u v hu).symm
+
+/-- The same for given successful runs. -/
+theorem C04_primitive_mst_same_cuts_of_runs (L : OrderLaws α) (T : LtTrichotomy α)
+    (chk₁ chk₂ : Bool) (st₁ st₂ sp sm : State α) (d₁ d₂ dp dm : Dendrogram α) (data : Array α)
+    (n : Nat) (Mp Mm : Mat α) (h2 : 2 ≤ n) (hs : n < 2147483648)
+    (hl : 2 * data.size = n * (n - 1)) (hnan : NoNaN n data) (hinf : InfTop n data)
+    (hp : primitiveWith chk₁ .single st₁ d₁ data n = .ok (sp, dp, Mp))
+    (hm : mstWith chk₂ st₂ d₂ data n = .ok (sm, dm, Mm)) (h : α) (u v : Nat) (hu : u < n) :
+    SameCluster n dp.steps.toList h u v ↔ SameCluster n dm.steps.toList h u v := by
+  obtain ⟨sp', dp', Mp', hp', hcp⟩ := C04_primitive L T chk₁ st₁ d₁ data n h2 hs hl hnan
+  rw [hp] at hp'
+  simp only [Except.ok.injEq, Prod.mk.injEq] at hp'
+  obtain ⟨-, rfl, -⟩ := hp'
+  exact (hcp h u v hu).trans
+    (C04_mst L chk₂ st₂ sm d₂ dm data n Mm h2 hs hl hnan hinf hm h u v hu).symm
+
+end Primitive
+
+section PrimitiveExact
+variable {K : Type} [Field K] [LinearOrder K] [Num K]
+
+theorem ExactLaws.noNaN_data (E : ExactLaws K) (n : Nat) (data : Array K) : NoNaN n data :=
+  fun _ _ _ _ _ => E.noNaN _
+
+/-- `C04_primitive` in exact arithmetic: no hypothesis besides the shape of the input. -/
+theorem C04_primitive_exact (E : ExactLaws K) (chk : Bool) (st : State K) (d : Dendrogram K)
+    (data : Array K) (n : Nat) (h2 : 2 ≤ n) (hs : n < 2147483648)
+    (hl : 2 * data.size = n * (n - 1)) :
+    ∃ st' d' M', primitiveWith chk .single st d data n = .ok (st', d', M') ∧
+      ∀ (h : K) (u v : Nat), u < n →
+        (SameCluster n d'.steps.toList h u v ↔ Reach n data h u v) :=
+  C04_primitive E.field.orderLaws E.field.ltTrichotomy chk st d data n h2 hs hl (E.noNaN_data n data)
+
+/-- `C04_primitive_mst_same_cuts` in exact arithmetic; `hinf`: no entry exceeds the sentinel. -/
+theorem C04_primitive_mst_same_cuts_exact (E : ExactLaws K) (chk₁ chk₂ : Bool)
+    (st₁ st₂ : State K) (d₁ d₂ : Dendrogram K) (data : Array K) (n : Nat) (h2 : 2 ≤ n)
+    (hs : n < 2147483648) (hl : 2 * data.size = n * (n - 1))
+    (hinf : ∀ u v, u < n → v < n → u ≠ v →
+      entry n data Num.infinity u v ≤ (Num.infinity : K)) :
+    ∃ sp dp Mp sm dm Mm,
+      primitiveWith chk₁ .single st₁ d₁ data n = .ok (sp, dp, Mp) ∧
+      mstWith chk₂ st₂ d₂ data n = .ok (sm, dm, Mm) ∧
+      ∀ (h : K) (u v : Nat), u < n →
+        (SameCluster n dp.steps.toList h u v ↔ SameCluster n dm.steps.toList h u v) :=
+  C04_primitive_mst_same_cuts E.field.orderLaws E.field.ltTrichotomy chk₁ chk₂ st₁ st₂ d₁ d₂ data n
+    h2 hs hl (E.noNaN_data n data)
+    ⟨E.noNaN _, fun u v hu hv huv => E.field.lt_false.2 (hinf u v hu hv huv)⟩
+
+end PrimitiveExact
+
+/-! ### Non-vacuity over `ℚ` (an exact instance with sentinel `1000`) -/
+
+section PrimitiveExample
+
+/-- `fieldNum ℚ` with the sentinels set to `1000`. -/
+@[reducible] private def qNumInf : Num ℚ := { fieldNum ℚ with maxValue := 1000, infinity := 1000 }
+
+private theorem qNumInf_exact : @ExactLaws ℚ _ _ qNumInf :=
+  @ExactLaws.mk ℚ _ _ qNumInf
+    (@FieldLaws.mk ℚ _ _ qNumInf (fun _ _ => rfl) (fun _ _ => rfl) (fun _ _ => rfl)
+      (fun _ _ => rfl) (fun _ _ => rfl) (fun _ => rfl) rfl rfl)
+    (fun _ => rfl)
+
+attribute [local instance] qNumInf
+
+/-- `d01 = 5, d02 = 2, d12 = 9`. -/
+private def exQ : Array ℚ := #[5, 2, 9]
+
+private theorem exQ_inf : ∀ u v, u < 3 → v < 3 → u ≠ v →
+    entry 3 exQ Num.infinity u v ≤ (Num.infinity : ℚ) := by
+  have : ∀ u, u < 3 → ∀ v, v < 3 → u ≠ v →
+      entry 3 exQ Num.infinity u v ≤ (Num.infinity : ℚ) := by decide
+  intro u v hu hv huv
+  exact this u hu v hv huv
+
+/-- All hypotheses of the exact corollaries are satisfiable together; both algorithms return and
+cut identically at every rational level. -/
+example : ∃ sp dp Mp sm dm Mm,
+    primitiveWith true .single State.new (Dendrogram.new 0) exQ 3 = .ok (sp, dp, Mp) ∧
+    mstWith false State.new (Dendrogram.new 3) exQ 3 = .ok (sm, dm, Mm) ∧
+    ∀ (h : ℚ) (u v : Nat), u < 3 →
+      (SameCluster 3 dp.steps.toList h u v ↔ SameCluster 3 dm.steps.toList h u v) :=
+  C04_primitive_mst_same_cuts_exact qNumInf_exact true false _ _ _ _ exQ 3 (by decide) (by decide)
+    (by decide) exQ_inf
+
+end PrimitiveExample
 
 end Kodama
